@@ -375,6 +375,9 @@ func (p *FinalPool) submit(q *FinalQuery, text string) {
 		}
 		q.Dur = time.Since(t0)
 		atomic.AddInt64(&p.solverT, int64(q.Dur))
+		if q.Dur > 15*time.Second && os.Getenv("VP_SLOW") != "" {
+			fmt.Fprintf(os.Stderr, "[slow] %.1fs %s %s %s result=%s cross=%s\n", q.Dur.Seconds(), q.Harness, q.Kind, q.Label, q.Result, q.Cross)
+		}
 		if q.Kind == "batch" && q.Result != "unsat" && q.expand != nil {
 			// attribute: one query per assertion of the batch
 			for _, a := range q.Batch {
